@@ -46,10 +46,7 @@ func r18EndElementEndsTheList(c *cx, id string) {
 			}
 			return true
 		})
-		term := false
-		if l := stripNoops(cc.Body); len(l) > 0 {
-			_, term = l[len(l)-1].(*ast.ReturnStmt)
-		}
+		term := listReturns(cc.Body)
 		why := ""
 		switch {
 		case back != token.NoPos:
@@ -820,4 +817,30 @@ func r18HandOffComparesWholeNames(c *cx, id string) {
 		return true
 	})
 	c.r.Floor(id, "uses of the waiter's stanza name in handleInputStream", n, 2)
+}
+
+// listReturns: the statement list ends in a return on every path (a return, or
+// an if/else whose branches all do).
+func listReturns(list []ast.Stmt) bool {
+	l := stripNoops(list)
+	if len(l) == 0 {
+		return false
+	}
+	switch x := l[len(l)-1].(type) {
+	case *ast.ReturnStmt:
+		return true
+	case *ast.BlockStmt:
+		return listReturns(x.List)
+	case *ast.IfStmt:
+		if x.Else == nil || !listReturns(x.Body.List) {
+			return false
+		}
+		switch e := x.Else.(type) {
+		case *ast.BlockStmt:
+			return listReturns(e.List)
+		case *ast.IfStmt:
+			return listReturns([]ast.Stmt{e})
+		}
+	}
+	return false
 }
